@@ -1,6 +1,8 @@
 ---- MODULE MC_HostFifo ----
 EXTENDS J2O_Host, Json, J2O_HostFacts
-MCSlots == {"s1", "s2", "s3"}
+MCSlots == {"s1", "s2", "s3", "s4"}
+\* s4 is inherited from s1 (a subclass method defined by its base class) and patched by a third plugin
+MCInherit == ("s4" :> "s1")
 MCMissing == {"s3"}
 \* s1 is patched by both plugins (like the 28 duplicate keys of the real registry),
 \* s3 does not exist before patching (delete-on-restore)
